@@ -372,6 +372,13 @@ class Ctx:
             t.check(j == 1.0, "C13", "C13.jaccard_identical", ENGINE, lambda: rp2(jaccard=j), sigb)
         t.check(bytes(A) == bA and bytes(B) == bB, "C13", "C13.operands_unchanged", ENGINE, rp2, sigb)
         t.check(bytes(A) == bA and bytes(B) == bB, "C19", "C19.bloom_binary_operands_unchanged", ENGINE, rp2, sigb)
+        # C19: results of set operations are reachable states too: clear() must reset them completely
+        if t.focus == "C19":
+            fresh = self.new("mem", hf)
+            fb, fo = bytes(fresh), self.observe(fresh)
+            for name, r in (("union", A.union(B)), ("intersection", A.intersection(B))):
+                r.clear()
+                t.check(bytes(r) == fb and self.observe(r) == fo, "C19", "C19.clear_fresh.bloom_result", ENGINE, lambda: rp2(which=name, after_clear=self.observe(r)), sigb)
         # C14: a union / intersection carries the estimate of distinct elements as its counter
         for name, r in (("union", u), ("intersection", x)):
             t.check(r.elements_added == r.estimate_elements(), "C14", "C14.binary_counter_is_estimate", ENGINE, lambda: rp2(which=name, n=r.elements_added), sigb)
